@@ -662,14 +662,13 @@ func init() {
 		}
 		return tuple{uint64(0), in.mkError("strconv.ParseUint: parsing <symbolic>: invalid")}, true
 	}
-	intrinsics["strconv.Atoi"] = func(in *Interp, c *frame, fn *ssa.Function, a []value) (value, bool) {
-		if allConcrete(a) {
-			return nil, false
-		}
-		s := a[0]
+	symParseInt := func(in *Interp, s value, bitSize int, fname string) value {
 		n := strLen(s)
 		if n == 0 {
-			return tuple{uint64(0), in.mkError("strconv.Atoi: parsing \"\": invalid syntax")}, true
+			return tuple{uint64(0), in.mkError("strconv." + fname + ": parsing \"\": invalid syntax")}
+		}
+		if bitSize == 0 {
+			bitSize = 64
 		}
 		neg := tFalse
 		first := toTerm(strByte(s, 0), 8)
@@ -680,13 +679,31 @@ func init() {
 			body = strSlice(s, 1, n)
 		}
 		v, ok := in.symParseUint(body, 0)
-		// range: v <= 2^63-1 (or 2^63 when negative)
-		lim := mkIte(neg, mkBV(1<<63, 64), mkBV(1<<63-1, 64))
+		// range: v <= 2^(bitSize-1)-1 (or 2^(bitSize-1) when negative)
+		top := uint64(1) << uint(bitSize-1)
+		lim := mkIte(neg, mkBV(top, 64), mkBV(top-1, 64))
 		ok = mkAnd(ok, mkCmp("bvule", v, lim))
 		if in.branch(ok) {
-			return tuple{fromTerm(mkIte(neg, mkBVNeg(v), v)), iface{}}, true
+			return tuple{fromTerm(mkIte(neg, mkBVNeg(v), v)), iface{}}
 		}
-		return tuple{uint64(0), in.mkError("strconv.Atoi: parsing <symbolic>: invalid")}, true
+		return tuple{uint64(0), in.mkError("strconv." + fname + ": parsing <symbolic>: invalid")}
+	}
+	intrinsics["strconv.Atoi"] = func(in *Interp, c *frame, fn *ssa.Function, a []value) (value, bool) {
+		if allConcrete(a) {
+			return nil, false
+		}
+		return symParseInt(in, a[0], 0, "Atoi"), true
+	}
+	intrinsics["strconv.ParseInt"] = func(in *Interp, c *frame, fn *ssa.Function, a []value) (value, bool) {
+		if allConcrete(a) {
+			return nil, false
+		}
+		base, _ := a[1].(uint64)
+		bs, _ := a[2].(uint64)
+		if base != 10 {
+			panic(unsupported{"symbolic ParseInt with base != 10"})
+		}
+		return symParseInt(in, a[0], int(bs), "ParseInt"), true
 	}
 	intrinsics["strconv.FormatUint"] = func(in *Interp, c *frame, fn *ssa.Function, a []value) (value, bool) {
 		if allConcrete(a) {
